@@ -240,8 +240,14 @@ func (ab *dsAddrBook) loadRecord(id peer.ID, cache bool, update bool) (pr *addrs
 		pr.Lock()
 		defer pr.Unlock()
 
-		if pr.clean(ab.clock.Now()) && update {
-			err = pr.flush(ab.ds)
+		if pr.clean(ab.clock.Now()) {
+			if update {
+				err = pr.flush(ab.ds)
+			} else {
+				// Not written back now: remember that the cached copy differs from the
+				// stored one, or GC skips it and the stored record is never removed.
+				pr.dirty = true
+			}
 		}
 		return pr, err
 	}
